@@ -171,7 +171,121 @@ theorem empi_cumulative (m : Nat) (data : List Int) (n1 n2 : Nat) (h : n1 ≤ n2
   conv => lhs; rw [this]
   exact countsFrom_append 0 m _ _
 
-/-- **C14.g `empi_validation`** — the validation errors, in the order of the code: negative `measurement_num`; a first
+/-- spec pins: strictly increasing sample sizes; the last requested size -/
+theorem increasing_def (a b : Int) (t : List Int) :
+    (Increasing [] ↔ True) ∧ (Increasing [a] ↔ True) ∧ (Increasing (a :: b :: t) ↔ a < b ∧ Increasing (b :: t)) :=
+  ⟨Iff.rfl, Iff.rfl, Iff.rfl⟩
+theorem lastD_def (a b : Int) (t : List Int) : lastD a [] = a ∧ lastD a (b :: t) = lastD b t := ⟨rfl, rfl⟩
+
+/-- **C14.g `empi_ok_iff`** — full characterisation of success (first requested size positive): `calc_empi_dist_sequence`
+returns exactly when `measurement_num ≥ 0`, the sample sizes are strictly increasing and none exceeds the data length,
+and every datum of the consumed prefix `data[:last size]` satisfies `0 ≤ d < measurement_num`. Data behind the last
+requested size are never looked at. -/
+theorem empi_ok_iff (mnum : Int) (data : List Int) (n0 : Int) (rest : List Int) (hpos : 0 < n0) :
+    (∃ out, calcEmpiDistSequence mnum data (n0 :: rest) = .ok out) ↔
+      0 ≤ mnum ∧ Increasing (n0 :: rest) ∧ (∀ n ∈ n0 :: rest, n ≤ (data.length : Int)) ∧
+        ∀ x ∈ data.take (lastD n0 rest).toNat, 0 ≤ x ∧ x < mnum := by
+  unfold calcEmpiDistSequence
+  by_cases hm : mnum < 0
+  · simp only [hm, if_true, reduceCtorEq, exists_false, false_iff]
+    intro h; omega
+  · have hm' : 0 ≤ mnum := by omega
+    have hcast : ((mnum.toNat : Nat) : Int) = mnum := Int.toNat_of_nonneg hm'
+    simp only [hm, if_false]
+    by_cases hle : n0 > (data.length : Int)
+    · simp only [hle, if_true, reduceCtorEq, exists_false, false_iff]
+      intro h; have := h.2.2.1 n0 (by simp); omega
+    · simp only [hle, if_false]
+      constructor
+      · rintro ⟨out, h⟩
+        obtain ⟨g1, g2, g3⟩ := empiLoop_ok_valid mnum.toNat data.length data 0 _ n0 0 rest [] out (by simp)
+          (by simpa using hpos) (by omega) h
+        refine ⟨hm', g1, ?_, ?_⟩
+        · intro n hn
+          rcases List.mem_cons.1 hn with rfl | hn
+          · omega
+          · exact g2 n hn
+        · intro x hx
+          have := g3 x (by simpa using hx)
+          unfold InRangeD at this; rw [hcast] at this; exact this
+      · rintro ⟨_, h1, h2, h3⟩
+        exact empiLoop_valid_ok mnum.toNat data.length data 0 _ n0 0 rest [] (by simp) (by simpa using hpos) h1 h2
+          (by
+            intro x hx
+            have := h3 x (by simpa using hx)
+            unfold InRangeD; rw [hcast]; exact this)
+
+/-- **C14.g' `empi_error_sound`** — every error names an actual defect at the reported position: a negative
+`measurement_num`; a sample size `num_sums[p]` beyond the data; a datum `data[i]` outside `0 ≤ d < measurement_num`
+with all data before it inside; a pair `num_sums[p-1] ≥ num_sums[p]`. -/
+theorem empi_error_sound (mnum : Int) (data : List Int) (ns : List Int) (e : EmpiErr)
+    (h : calcEmpiDistSequence mnum data ns = .error e) :
+    (e = .negativeMeasurementNum ∧ mnum < 0) ∨
+    (∃ p n, e = .numSumTooLarge p ∧ ns[p]? = some n ∧ n > (data.length : Int)) ∨
+    (∃ i d, e = .dataOutOfRange i ∧ data[i]? = some d ∧ ¬ (0 ≤ d ∧ d < mnum) ∧
+        ∀ j x, j < i → data[j]? = some x → 0 ≤ x ∧ x < mnum) ∨
+    (∃ p a b, e = .notIncreasing (p + 1) ∧ ns[p]? = some a ∧ ns[p + 1]? = some b ∧ a ≥ b) := by
+  unfold calcEmpiDistSequence at h
+  split at h
+  · rename_i hm; injection h with h; subst h; exact Or.inl ⟨rfl, hm⟩
+  · rename_i hm
+    have hcast : ((mnum.toNat : Nat) : Int) = mnum := Int.toNat_of_nonneg (by omega)
+    split at h
+    · cases h
+    · rename_i n0 rest
+      split at h
+      · rename_i hgt
+        injection h with h; subst h
+        exact Or.inr (Or.inl ⟨0, n0, rfl, by simp, hgt⟩)
+      · rcases empiLoop_error_sound mnum.toNat data.length data 0 _ n0 0 rest [] e h with
+          ⟨i, d, he, h1, h2, h3⟩ | ⟨k, n, he, h1, h2⟩ | ⟨k, a, b, he, h1, h2, h3⟩
+        · refine Or.inr (Or.inr (Or.inl ⟨i, d, by simpa using he, h1, ?_, ?_⟩))
+          · unfold InRangeD at h2; rw [hcast] at h2; exact h2
+          · intro j x hj hx
+            have := h3 j x hj hx
+            unfold InRangeD at this; rw [hcast] at this; exact this
+        · exact Or.inr (Or.inl ⟨k + 1, n, by rw [he]; congr 1; omega, by simpa using h1, h2⟩)
+        · exact Or.inr (Or.inr (Or.inr ⟨k, a, b, by rw [he]; congr 1; omega, h1, by simpa using h2, h3⟩))
+
+/-- **C14.e'' `empi_ok_sum_one`** — no extra hypothesis: every entry a successful call returns (positive sizes) is a
+non-negative vector summing to one, because success implies that the consumed prefix lies within range. -/
+theorem empi_ok_sum_one (mnum : Int) (data : List Int) (ns : List Int) (out : List (Int × List Rat))
+    (hpos : ∀ n ∈ ns, 0 < n) (h : calcEmpiDistSequence mnum data ns = .ok out) :
+    ∀ entry ∈ out, entry.2.sum = 1 ∧ ∀ x ∈ entry.2, 0 ≤ x := by
+  have hout := empi_counts mnum data ns out hpos h
+  cases ns with
+  | nil => subst hout; simp
+  | cons n0 rest =>
+    obtain ⟨hm, hinc, hle, hrange⟩ := (empi_ok_iff mnum data n0 rest (hpos n0 (by simp))).1 ⟨out, h⟩
+    have hcast : ((mnum.toNat : Nat) : Int) = mnum := Int.toNat_of_nonneg hm
+    intro entry hentry
+    rw [hout] at hentry
+    obtain ⟨n, hn, rfl⟩ := List.mem_map.1 hentry
+    have hnpos := hpos n hn
+    refine ⟨empi_sum_one mnum.toNat data n hnpos (hle n hn) ?_, empi_nonneg mnum.toNat data n hnpos⟩
+    intro x hx
+    have hnl := le_lastD n0 rest hinc n hn
+    have := hrange x (mem_take_mono data n.toNat (lastD n0 rest).toNat (by omega) x hx)
+    rw [hcast]; exact this
+
+example : Increasing [2, 5] ∧ lastD 2 [5] = 5 := by simp [Increasing, lastD]
+
+
+/-- **C14.g3 `empi_first_size_nonpositive`** (the code as it is, outside the property's domain): a first sample size
+`≤ 0` is never reached — all data are validated and the result is the empty list, whatever sizes follow. -/
+theorem empi_first_size_nonpositive (mnum : Int) (data : List Int) (n0 : Int) (rest : List Int)
+    (hm : 0 ≤ mnum) (hn : n0 ≤ 0) (hr : ∀ x ∈ data, 0 ≤ x ∧ x < mnum) :
+    calcEmpiDistSequence mnum data (n0 :: rest) = .ok [] := by
+  have hcast : ((mnum.toNat : Nat) : Int) = mnum := Int.toNat_of_nonneg hm
+  unfold calcEmpiDistSequence
+  rw [if_neg (by omega)]
+  simp only []
+  rw [if_neg (by omega)]
+  have := empiLoop_never mnum.toNat data.length data 0 (List.replicate mnum.toNat 0) n0 0 rest [] (by simpa using hn)
+    (by intro x hx; unfold InRangeD; rw [hcast]; exact hr x hx)
+  simpa using this
+
+/-- **C14.g'' `empi_validation`** — the validation errors, in the order of the code: negative `measurement_num`; a first
 sample size beyond the data; a datum outside `0 ≤ d < measurement_num` *within the consumed prefix* (here: the very
 first datum); nothing requested ⇒ empty result without looking at the data. -/
 theorem empi_validation (mnum : Int) (data : List Int) (ns : List Int) :
